@@ -408,4 +408,223 @@ Section Safety.
       + eapply keeps_trans; [apply keeps_after|exact R6].
       + intros HD Hs. apply R7; [exact HD|]. eapply seen_ok_after; eauto.
   Qed.
+
+  (* ---- node level ------------------------------------------------------------------------------ *)
+  Definition Inv (nd : node) (j : nat) : Prop :=
+    n_status nd = Running /\ core (n_disk nd) (n_last nd) j /\ cache_ok (n_cache nd) /\ cache_ok (n_files nd).
+
+  Lemma keeps_items c j c' :
+    c_hdrs c' = c_hdrs c -> c_data c' = c_data c -> keeps c j c' j.
+  Proof. intros E1 E2 i sh d _. unfold hv_h, hv_d. rewrite E1, E2. split; auto. Qed.
+
+  Lemma nth_same_height i i' sh d sh' d' :
+    nth_error C i = Some (sh, d) -> nth_error C i' = Some (sh', d') ->
+    h_height (sh_hdr sh) = h_height (sh_hdr sh') -> i = i' /\ sh = sh' /\ d = d'.
+  Proof.
+    intros H1 H2 E. destruct (chain_block _ _ _ H1) as (A & _). destruct (chain_block _ _ _ H2) as (B & _).
+    assert (i = i') by lia. subst. rewrite H1 in H2. inversion H2. auto.
+  Qed.
+
+  Lemma keeps_set_hdr c j i0 sh d0 :
+    nth_error C i0 = Some (sh, d0) -> keeps c j (set_hdr c (g_initial g + N.of_nat i0) sh) j.
+  Proof.
+    intros H0 i sh' d' Hn. unfold hv_h, hv_d; cbn [set_hdr c_hdrs c_data lookup]. split; [|auto].
+    intros [H|H]; [left; exact H|right].
+    destruct (N.eqb_spec (g_initial g + N.of_nat i0) (g_initial g + N.of_nat i)) as [E|E]; [|exact H].
+    assert (i0 = i) by lia. subst. rewrite H0 in Hn. inversion Hn. reflexivity.
+  Qed.
+
+  Lemma keeps_set_data c j i0 sh d0 :
+    nth_error C i0 = Some (sh, d0) -> keeps c j (set_data c (g_initial g + N.of_nat i0) d0) j.
+  Proof.
+    intros H0 i sh' d' Hn. unfold hv_h, hv_d; cbn [set_data c_hdrs c_data lookup]. split; [auto|].
+    intros [H|H]; [left; exact H|right].
+    destruct (N.eqb_spec (g_initial g + N.of_nat i0) (g_initial g + N.of_nat i)) as [E|E]; [|exact H].
+    assert (i0 = i) by lia. subst. rewrite H0 in Hn. inversion Hn. reflexivity.
+  Qed.
+
+  Lemma cache_ok_set_hdr c i0 sh d0 :
+    nth_error C i0 = Some (sh, d0) -> cache_ok c -> cache_ok (set_hdr c (g_initial g + N.of_nat i0) sh).
+  Proof.
+    intros H0 (H1 & H2). split; cbn; intros n x Hin; [|eauto].
+    destruct Hin as [E|Hin]; [inversion E; subst; eauto|eauto].
+  Qed.
+  Lemma cache_ok_set_data c i0 sh d0 :
+    nth_error C i0 = Some (sh, d0) -> cache_ok c -> cache_ok (set_data c (g_initial g + N.of_nat i0) d0).
+  Proof.
+    intros H0 (H1 & H2). split; cbn; intros n x Hin; [eauto|].
+    destruct Hin as [E|Hin]; [inversion E; subst; eauto|eauto].
+  Qed.
+
+  Lemma seen_ok_add_h c j i0 sh d0 :
+    nth_error C i0 = Some (sh, d0) -> hv_h c j i0 sh -> (d_txs d0 = [] -> hv_d c j i0 d0) ->
+    seen_ok c j -> seen_ok (add_hseen c (sh_hdr sh)) j.
+  Proof.
+    intros H0 A B (S1 & S2). split.
+    - intros i sh' d' Hn Hs. unfold hseen in Hs. cbn [add_hseen c_hseen existsb] in Hs.
+      apply orb_true_iff in Hs as [Hs|Hs].
+      + apply header_eqb_height in Hs. destruct (nth_same_height _ _ _ _ _ _ Hn H0 Hs) as (-> & -> & ->).
+        split; assumption.
+      + exact (S1 _ _ _ Hn Hs).
+    - intros i sh' d' Hn Hne Hs. exact (S2 _ _ _ Hn Hne Hs).
+  Qed.
+
+  Lemma seen_ok_add_d c j i0 sh d0 :
+    Distinct -> nth_error C i0 = Some (sh, d0) -> hv_d c j i0 d0 ->
+    seen_ok c j -> seen_ok (add_dseen c (d_txs d0)) j.
+  Proof.
+    intros HD H0 A (S1 & S2). split.
+    - intros i sh' d' Hn Hs. exact (S1 _ _ _ Hn Hs).
+    - intros i sh' d' Hn Hne Hs. unfold dseen in Hs. cbn [add_dseen c_dseen existsb] in Hs.
+      apply orb_true_iff in Hs as [Hs|Hs].
+      + apply commitment_eqb_eq in Hs.
+        assert (i = i0) by (apply (HD i i0 (sh', d') (sh, d0)); auto). subst.
+        rewrite H0 in Hn. inversion Hn; subst. exact A.
+      + exact (S2 _ _ _ Hn Hne Hs).
+  Qed.
+
+  Notation calls j := (calls_after exec s0 C j).
+
+  Lemma loop_good nd j c mark :
+    Inv nd j -> cache_ok c ->
+    (forall c', c_hdrs (mark c') = c_hdrs c' /\ c_data (mark c') = c_data c') ->
+    exists j' c', (j <= j')%nat /\ Inv (fst (finish nd (start_loop exec nd c) mark)) j' /\
+      n_cache (fst (finish nd (start_loop exec nd c) mark)) = mark c' /\
+      n_files (fst (finish nd (start_loop exec nd c) mark)) = n_files nd /\
+      (forall L, n_log nd = L ++ calls j -> n_log (fst (finish nd (start_loop exec nd c) mark)) = L ++ calls j') /\
+      fixp c' (n_disk (fst (finish nd (start_loop exec nd c) mark))) /\
+      keeps c j c' j' /\ (Distinct -> seen_ok c j -> seen_ok c' j').
+  Proof.
+    intros (Hst & Hcore & Hc & Hf) Hc' Hmark.
+    unfold start_loop.
+    match goal with |- context [try_sync exec ?f ?st] =>
+      destruct (try_sync_inv f st j) as (j' & Hle & Hcore' & Hcc & Hlog' & Hst' & Hfix & Hk & Hs); auto;
+      set (R := try_sync exec f st) in * end.
+    exists j', (l_cache R). split; [exact Hle|].
+    unfold finish; cbn [fst n_status n_disk n_last n_cache n_files n_log].
+    rewrite Hst'. cbn [l_cache] in *.
+    split; [|split; [reflexivity|split; [reflexivity|split; [exact Hlog'|split; [exact Hfix|split; assumption]]]]].
+    split; [reflexivity|]. split; [exact Hcore'|]. split; [|exact Hf].
+    destruct Hcc as (H1 & H2). destruct (Hmark (l_cache R)) as (E1 & E2).
+    unfold cache_ok; cbn [n_cache]. rewrite E1, E2. split; assumption.
+  Qed.
+
+  (* what one step guarantees *)
+  Definition StepOK (nd : node) (j : nat) (nd' : node) (j' : nat) : Prop :=
+    (j <= j')%nat /\ Inv nd' j' /\
+    (forall L, n_log nd = L ++ calls j -> n_log nd' = L ++ calls j') /\
+    (fixp (n_cache nd) (n_disk nd) -> fixp (n_cache nd') (n_disk nd')) /\
+    keeps (n_cache nd) j (n_cache nd') j' /\
+    (Distinct -> seen_ok (n_cache nd) j -> seen_ok (n_cache nd') j').
+
+  Lemma StepOK_refl nd j : Inv nd j -> StepOK nd j nd j.
+  Proof. intros HI. split; [lia|]. split; [exact HI|]. split; [auto|]. split; [auto|]. split; [apply keeps_refl|auto]. Qed.
+
+  (* after a header (data) event of block i: block i is applied or its header (data) is cached *)
+  Definition effect (e : event) (c : cache) (j : nat) : Prop :=
+    match e with
+    | EvHeader sh _ => forall i d, nth_error C i = Some (sh, d) -> hv_h c j i sh /\ (d_txs d = [] -> hv_d c j i d)
+    | EvData d _ => forall i sh, nth_error C i = Some (sh, d) -> d_txs d <> [] -> hv_d c j i d
+    end.
+
+  Lemma effect_keeps e c j c' j' : keeps c j c' j' -> effect e c j -> effect e c' j'.
+  Proof.
+    intros Hk. destruct e as [sh da|d da]; cbn.
+    - intros He i d Hn. destruct (He _ _ Hn) as (A & B). destruct (Hk _ _ _ Hn) as (K1 & K2). split; auto.
+    - intros He i sh Hn Hne. destruct (Hk _ _ _ Hn) as (_ & K2). apply K2. exact (He _ _ Hn Hne).
+  Qed.
+
+  Lemma below_height m last j i sh d :
+    core m last j -> nth_error C i = Some (sh, d) -> (h_height (sh_hdr sh) <=? d_height m) = true -> (i < j)%nat.
+  Proof.
+    intros (_ & Hh & _) Hn Hle. cbn [n_disk] in Hh. destruct (chain_block _ _ _ Hn) as (Hhh & _).
+    apply N.leb_le in Hle. pose proof init_pos. lia.
+  Qed.
+
+  Lemma process_good nd j e :
+    Inv nd j -> ev_in C e ->
+    exists j', StepOK nd j (fst (process exec nd e)) j' /\
+      n_files (fst (process exec nd e)) = n_files nd /\
+      (Distinct -> seen_ok (n_cache nd) j -> effect e (n_cache (fst (process exec nd e))) j').
+  Proof.
+    intros HI Hev. pose proof HI as (Hst & Hcore & Hc & Hf).
+    unfold process. rewrite Hst.
+    destruct e as [sh da | d da].
+    - destruct Hev as (d0 & Hin). apply In_nth_error in Hin as (i0 & H0).
+      destruct (chain_block _ _ _ H0) as (Hh & Htx & Hm).
+      unfold on_header.
+      destruct ((h_height (sh_hdr sh) <=? d_height (n_disk nd)) || hseen (n_cache nd) (sh_hdr sh)) eqn:Hcond.
+      + exists j. cbn [fst]. split; [apply StepOK_refl; exact HI|]. split; [reflexivity|].
+        intros HD (S1 & _) i d Hn. apply orb_true_iff in Hcond as [Hle|Hs].
+        * pose proof (below_height _ _ _ _ _ _ Hcore Hn Hle). split; [left; lia|intros _; left; lia].
+        * exact (S1 _ _ _ Hn Hs).
+      + rewrite Hh.
+        set (c2 := if is_empty_commitment (h_data (sh_hdr sh))
+                   then set_data (set_hdr (n_cache nd) (g_initial g + N.of_nat i0) sh) (g_initial g + N.of_nat i0) (empty_data (sh_hdr sh))
+                   else set_hdr (n_cache nd) (g_initial g + N.of_nat i0) sh).
+        assert (Hc2 : cache_ok c2 /\ keeps (n_cache nd) j c2 j /\ c_hseen c2 = c_hseen (n_cache nd) /\
+                      c_dseen c2 = c_dseen (n_cache nd) /\ hv_h c2 j i0 sh /\ (d_txs d0 = [] -> hv_d c2 j i0 d0)).
+        { subst c2. destruct (is_empty_commitment (h_data (sh_hdr sh))) eqn:He.
+          - assert (He' : d_txs d0 = []) by (rewrite Htx; destruct (h_data (sh_hdr sh)); [reflexivity|discriminate He]).
+            rewrite (empty_data_eq _ _ _ H0 He').
+            split; [eapply cache_ok_set_data; eauto; eapply cache_ok_set_hdr; eauto|].
+            split; [eapply keeps_trans; [eapply keeps_set_hdr; eauto|eapply keeps_set_data; eauto]|].
+            split; [reflexivity|]. split; [reflexivity|].
+            split; [right; cbn; rewrite N.eqb_refl; reflexivity|intros _; right; cbn; rewrite N.eqb_refl; reflexivity].
+          - split; [eapply cache_ok_set_hdr; eauto|]. split; [eapply keeps_set_hdr; eauto|].
+            split; [reflexivity|]. split; [reflexivity|].
+            split; [right; cbn; rewrite N.eqb_refl; reflexivity|].
+            intros He'. rewrite Htx in He'. rewrite He' in He. discriminate He. }
+        destruct Hc2 as (Hcok & Hk2 & Es1 & Es2 & Hvh & Hvd).
+        destruct (loop_good nd j c2 (fun c => add_hseen c (sh_hdr sh)) HI Hcok) as
+          (j' & c' & Hle & HI' & Ecache & Efiles & Hlog & Hfix & Hk & Hs); [intros c'; split; reflexivity|].
+        exists j'. unfold StepOK. rewrite Ecache.
+        assert (Hvh' : hv_h c' j' i0 sh) by (destruct (Hk _ _ _ H0) as (K1 & _); auto).
+        assert (Hvd' : d_txs d0 = [] -> hv_d c' j' i0 d0) by (destruct (Hk _ _ _ H0) as (_ & K2); auto).
+        assert (Hka : keeps c' j' (add_hseen c' (sh_hdr sh)) j') by (apply keeps_items; reflexivity).
+        split; [|split; [exact Efiles|]].
+        * split; [exact Hle|]. split; [exact HI'|]. split; [exact Hlog|]. split; [intros _; exact Hfix|].
+          split; [eapply keeps_trans; [exact Hk2|eapply keeps_trans; [exact Hk|exact Hka]]|].
+          intros HD Hs0. eapply seen_ok_add_h; eauto. apply Hs; [exact HD|].
+          eapply seen_ok_keeps; eauto.
+        * intros _ _ i d Hn.
+          destruct (nth_same_height _ _ _ _ _ _ Hn H0 eq_refl) as (-> & _ & ->).
+          destruct (Hka _ _ _ H0) as (K1 & K2). split; auto.
+    - destruct Hev as (sh0 & Hin). apply In_nth_error in Hin as (i0 & H0).
+      destruct (chain_block _ _ _ H0) as (Hh & Htx & Hm).
+      assert (Huniq : forall i sh, nth_error C i = Some (sh, d) -> d_txs d <> [] -> Distinct -> i = i0 /\ sh = sh0).
+      { intros i sh Hn Hne HD. assert (i = i0) by (apply (HD i i0 (sh, d) (sh0, d)); auto).
+        split; [assumption|]. subst i.
+        assert (E : Some (sh, d) = Some (sh0, d)) by (rewrite <- Hn; exact H0). inversion E. reflexivity. }
+      unfold on_data. rewrite Hm.
+      destruct (d_txs d) as [|t0 tl] eqn:Ht in |- *.
+      { exists j. cbn [fst]. split; [apply StepOK_refl; exact HI|]. split; [reflexivity|].
+        intros _ _ i sh Hn Hne. exfalso; apply Hne; exact Ht. }
+      rewrite <- Ht. assert (Hne0 : d_txs d <> []) by (rewrite Ht; discriminate).
+      destruct (dseen (n_cache nd) (d_txs d)) eqn:Hds.
+      { exists j. cbn [fst]. split; [apply StepOK_refl; exact HI|]. split; [reflexivity|].
+        intros HD (_ & S2) i sh Hn Hne. exact (S2 _ _ _ Hn Hne Hds). }
+      cbn [m_height].
+      destruct (h_height (sh_hdr sh0) <=? d_height (n_disk nd)) eqn:Hle0.
+      { exists j. cbn [fst]. split; [apply StepOK_refl; exact HI|]. split; [reflexivity|].
+        intros HD _ i sh Hn Hne. destruct (Huniq _ _ Hn Hne HD) as (-> & ->).
+        left. eapply below_height; eauto. }
+      rewrite Hh.
+      set (c2 := set_data (n_cache nd) (g_initial g + N.of_nat i0) d).
+      destruct (loop_good nd j c2 (fun c => add_dseen c (d_txs d)) HI) as
+        (j' & c' & Hle & HI' & Ecache & Efiles & Hlog & Hfix & Hk & Hs);
+        [eapply cache_ok_set_data; eauto|intros c'; split; reflexivity|].
+      exists j'. unfold StepOK. rewrite Ecache.
+      assert (Hvd : hv_d c2 j i0 d) by (right; cbn; rewrite N.eqb_refl; reflexivity).
+      assert (Hvd' : hv_d c' j' i0 d) by (destruct (Hk _ _ _ H0) as (_ & K2); auto).
+      assert (Hka : keeps c' j' (add_dseen c' (d_txs d)) j') by (apply keeps_items; reflexivity).
+      assert (Hk2 : keeps (n_cache nd) j c2 j) by (eapply keeps_set_data; eauto).
+      split; [|split; [exact Efiles|]].
+      * split; [exact Hle|]. split; [exact HI'|]. split; [exact Hlog|]. split; [intros _; exact Hfix|].
+        split; [eapply keeps_trans; [exact Hk2|eapply keeps_trans; [exact Hk|exact Hka]]|].
+        intros HD Hs0. eapply seen_ok_add_d; eauto. apply Hs; [exact HD|].
+        apply (seen_ok_keeps (n_cache nd) j c2 j); [reflexivity|reflexivity|exact Hk2|exact Hs0].
+      * intros HD _ i sh Hn Hne. destruct (Huniq _ _ Hn Hne HD) as (-> & ->).
+        destruct (Hka _ _ _ H0) as (_ & K2). auto.
+  Qed.
 End Safety.
